@@ -210,6 +210,7 @@ mutate(vh_rng *rg, struct rt_desc *d)
         unsigned k = (unsigned)vh_below(rg, 15);
         int ai = d->nareas > 1 ? 1 + (int)vh_below(rg, (uint64_t)d->nareas - 1) : 0;
         int ri = d->nregs > 1 ? 1 + (int)vh_below(rg, (uint64_t)d->nregs - 1) : 0;
+        const struct rt_desc before = *d;
         switch (k) {
         case 0: d->nareas = 0; break;
         case 1:
@@ -299,6 +300,14 @@ mutate(vh_rng *rg, struct rt_desc *d)
             }
             break;
         }
+        /* an area that would reach up to or beyond 2^32 is not a layout of the address space (the 32-bit arithmetic
+         * behind such bases - a zero-sized area at address 0 has "last word" 0xffffffff - is the harness's, not
+         * a caller's): the step is taken back */
+        for (int a = 0; a < d->nareas; a++)
+            if ((uint64_t)d->area[a].base + d->area[a].size > 0xffffffffull) {
+                *d = before;
+                break;
+            }
     }
 }
 
